@@ -897,6 +897,32 @@ func TestVerifC19(t *testing.T) {
 	}
 	send("nil-request", &c19Req{Nil: true}, "send")
 
+	// 2b. bytes versus runes: multi-byte digits and invalid UTF-8 at the first and the last position of
+	// a hash (once with 64 bytes in total, once with 64 runes in total) and of an amount
+	for _, seq := range []string{"é", "٣", "３", "\U0001D7D1", "\xff", "\x80", "\xc3", "\xa9", "\xc0\xb1", "\xed\xa0\x80",
+		"\xf4\x90\x80\x80", "\xe2\x82", "\xef\xbf\xbd"} {
+		for _, total := range []int{64 - len(seq), 64 - utf8.RuneCountInString(seq)} {
+			for _, first := range []bool{true, false} {
+				req := c19ValidReq(r)
+				pad := c19Rand(r, c19HexMixed, total)
+				var h []byte
+				if first {
+					h = append([]byte(seq), pad...)
+				} else {
+					h = append(pad, seq...)
+				}
+				req.Hashes[len(req.Hashes)-1] = h
+				send("utf8-boundary", req, "send")
+			}
+		}
+		for _, a := range []string{seq, seq + "12", "12" + seq, "1" + seq + "2"} {
+			req := c19ValidReq(r)
+			req.Amount = []byte(a)
+			send("utf8-boundary", req, "send")
+			run("utf8-boundary", c19In{Kind: "amount", Msg: "bidderapi.v1.PrepayRequest", Amount: []byte(a), FailAt: -1})
+		}
+	}
+
 	// 3. random streams
 	for i := 0; i < e.N; i++ {
 		switch i % 5 {
